@@ -111,6 +111,9 @@ type dump struct {
 // every emitted record is handed to collect (in the parent, after all children finished the job;
 // order unspecified). With VERIF_PROCS<=1 it degrades to an in-process loop.
 func (c *Check) ProcFor(label string, n int, input []byte, f func(input []byte, i int, emit func([]byte)), collect func(rec []byte)) {
+	if c.Replaying() && !IsChild() {
+		return // path replay: only RunDFS call sites execute the recorded path
+	}
 	if IsChild() {
 		j := peekJob()
 		if j.Label != label {
